@@ -96,7 +96,7 @@ var labelRe = regexp.MustCompile(`^([a-zA-Z][a-zA-Z0-9_\-]*):\s+(.*)$`)
 
 var keywords = map[string]bool{"channel": true, "func": true, "interface": true, "props": true, "requires": true, "ensures": true,
 	"modifies": true, "nopanic": true, "inline": true, "pure": true, "loop": true, "closure": true, "invariant": true,
-	"ghost": true, "sets": true, "axiom": true, "note": true, "reads": true, "abstract": true, "end": true, "access": true}
+	"ghost": true, "like": true, "sets": true, "axiom": true, "note": true, "reads": true, "abstract": true, "end": true, "access": true}
 
 // parseSpecFile reads //@ lines (or bare lines in .spec files) into the db.
 // pkgShort qualifies unqualified function keys.
@@ -307,6 +307,23 @@ func (db *SpecDB) parseSpecFile(path string, src []byte, pkgShort string, truste
 				return err
 			}
 			db.Axioms = append(db.Axioms, &Axiom{Label: c.Label, E: c.E, Src: c.Src, File: loc})
+		case "like":
+			// like <key>: take over the clauses of another contract (an interface method's contract for its implementers)
+			src, ok := db.Contracts[strings.TrimSpace(rest)]
+			if !ok {
+				return fmt.Errorf("%s: like %s: no such contract (must be defined earlier)", loc, rest)
+			}
+			tgt.Requires = append(tgt.Requires, src.Requires...)
+			tgt.Ensures = append(tgt.Ensures, src.Ensures...)
+			if src.HasMod {
+				tgt.HasMod = true
+				for _, m := range src.Modifies {
+					if !contains(tgt.Modifies, m) {
+						tgt.Modifies = append(tgt.Modifies, m)
+					}
+				}
+			}
+			tgt.Notes = append(tgt.Notes, "implements the contract of "+src.Key)
 		case "access":
 			// dispatch class, interpreted by the surface sweep (expanded into requires/ensures there)
 			tgt.Access = rest
